@@ -218,8 +218,10 @@ Theorem udp_close_discards cx s w :
   let u := get_udp (fst (udp_close cx s w)) s in
   u_inq u = [] /\ u_qsize u = 0 /\ u_open u = false /\ u_fwd u = None /\ u_recv_h u = None /\ u_wait_recv_h u = None.
 Proof.
-  intros D. unfold udp_close. rewrite D. unfold udp_abort_recv, get_udp, set_udp. simpl.
-  rewrite !mget_mset_eq. simpl. repeat split; reflexivity.
+  intros D. unfold udp_close. rewrite D. unfold udp_abort_send, udp_abort_recv, get_udp, set_udp. simpl.
+  rewrite !mget_mset_eq. simpl.
+  destruct (u_wait_send_h _); [destruct (d3_udp_wait_write (cv cx))|]; simpl; rewrite ?mget_mset_eq; simpl;
+    repeat split; reflexivity.
 Qed.
 
 (* send_to: the rejection table, in the order the code checks *)
